@@ -123,7 +123,7 @@ async def _run_formula(sim: Sim, spec: dict[str, Any], table: list[list[float | 
         for i in order:
             if k < spec["starts"][i]:
                 continue
-            await txs[i].send(fc.make_sample(sim, k, table[i][k]))
+            await txs[i].send(fc.make_sample(sim, k, table[i][k], i))
             if schedule and sim.ch.chance("yield", 0.3):
                 await asyncio.sleep(0)
         await asyncio.sleep(0.2)
@@ -179,6 +179,7 @@ def scenario(sim: Sim) -> None:
     table0 = [[(0.0 if (leaf_naz[i] and kinds[i][k] in ("none", "nan", "+inf", "-inf")) else table[i][k])
                for k in range(rounds)] for i in range(n)]
     schedule = [ch.shuffle("order", list(range(n))) if ch.chance("perm", 0.3) else list(range(n)) for _ in range(rounds)]
+    fc.draw_stream_offsets(sim, list(range(n)))
     cost = ch.weighted("cost_mode", [3, 1])
     sim.set_cost_mode(cost)
 
